@@ -52,6 +52,17 @@ def generate(rng, tier):
         texts = [rng.choice(objs if rng.random() < 0.7 and objs else docs) for _ in range(n)]
         cases.append({"lines": ["schema track " + G.hx(e) + " " + " ".join(G.hx(t) for t in texts)], "cls": f"schema/x{n}", "kind": "schema", "ntexts": n,
                       "nontrivial": True})
+    # ParseSchema followed by a deep copy whose source is destroyed: strings updated in place, strings in rebuilt sub-trees, keys
+    from gen import mergegen as MG
+    for _ in range(250 if quick else 20000):
+        e, t = MG.schema_pair(rng) if hasattr(MG, "schema_pair") else (rng.choice(objs or docs), rng.choice(objs or docs))
+        cases.append({"lines": [f"schema-copy {rng.choice(['track', 'track', 'simple'])} " + G.hx(e) + " " + G.hx(t)], "cls": "schema-copy", "kind": "schema",
+                      "ntexts": 1, "nontrivial": True})
+    for e, t in [(b'{"name":"old","info":{"city":"x","n":1}}', b'{"name":"a much longer new name","info":{"city":"new city","n":2}}'),
+                 (b'{"s":"v"}', b'{"s":"w"}'), (b'"root"', b'"other root string"'), (b'{"a":{"b":{"c":"deep"}}}', b'{"a":{"b":{"c":"deeper \\n escaped"}}}'),
+                 (b'{"k":[1,2]}', b'{"k":["now","strings"]}'), (b'{"k":null}', b'{"k":{"new":"object","with":["strings"]}}')]:
+        for alloc in ("track", "simple", "pool"):
+            cases.append({"lines": [f"schema-copy {alloc} " + G.hx(e) + " " + G.hx(t)], "cls": "schema-copy", "kind": "schema", "ntexts": 1, "nontrivial": True})
     return cases
 
 
@@ -61,10 +72,18 @@ def judge(case, mo, io, cfg):
     if case.get("kind") == "schema":
         if "CRASH" in io[0]:
             return ("violation", f"crash / sanitizer report in ParseSchema: {io[0][:220]} for `{case['lines'][0][:160]}`")
-        if " ledger=" in io[0]:
-            led = io[0].rpartition(" ledger=")[2]
-            if led != "ok":
-                return ("violation", f"allocator ledger reports {led} after ParseSchema x{case['ntexts']} for `{case['lines'][0][:200]}`")
+        body = io[0]
+        led = "ok"
+        if " ledger=" in body:
+            body, _, led = body.rpartition(" ledger=")
+        if " copy=" in body:
+            body, _, cp = body.rpartition(" copy=")
+            last = body.rpartition(" tree=")[2]
+            if cp != last:
+                return ("violation", f"deep copy of a ParseSchema-updated document changed when its source was destroyed: copy={cp[:160]} source was={last[:160]} "
+                                     f"for `{case['lines'][0][:200]}`")
+        if led != "ok":
+            return ("violation", f"allocator ledger reports {led} after ParseSchema x{case['ntexts']} for `{case['lines'][0][:200]}`")
         return None
     return c12.judge_lines(case, mo, io, cfg)
 
